@@ -49,13 +49,12 @@ pub fn c06_decoder_end_empty_code() {
     sym::forget(code);
 }
 
-// @h prop=C06 tier=quick kind=proof unwindset="from_fn|drop_glue|drop_in_place:258;insert_decode:130" inst="Decoder::next on a two-symbol code (1-bit codes; root entry 0 is Symbol)" bounds="state: no pending bits, no further chunk; symbols symbolic" desc="end of item: next() is None"
+// @h prop=C06 tier=quick kind=proof unwindset="from_fn|drop_glue|drop_in_place:258" inst="Decoder::next on a two-symbol code (1-bit codes; root entry 0 is Symbol; table state written down directly)" bounds="state: no pending bits, no further chunk; symbols symbolic" desc="end of item: next() is None"
 #[cfg_attr(kani, kani::proof, kani::unwind(3))]
 pub fn c06_decoder_end_symbol_root() {
     let a = sym::u8();
     let b = sym::u8();
-    sym::assume(a != b);
-    let code = Code::<u8>::decode_only(&[(a, 1, 0), (b, 1, 1)]);
+    let code = Code::<u8>::uniform_table(1, &[a, b]);
     let (sym_, st) = code.decode_step(0, 0, None);
     assert!(sym_.is_none(), "C06: decoder yields a symbol from an empty item");
     assert!(st.1 == 0, "C06: decoder invents pending bits");
@@ -63,7 +62,46 @@ pub fn c06_decoder_end_symbol_root() {
     sym::forget(code);
 }
 
-// @h prop=C06 tier=thorough kind=proof timeout=3000 unwindset="from_fn|drop_glue|drop_in_place|map:258;insert_decode:258" inst="Decoder::next on a code with a 9-bit symbol (root entry 0 is Further: what >= 512 equiprobable symbols produce)" bounds="state: no pending bits, no further chunk" desc="end of item: next() is None and does not panic"
+// ---------------------------------------------------------------------------------------------------------------
+// table construction: one real insert_decode into a void table
+// ---------------------------------------------------------------------------------------------------------------
+/// One real `insert_decode` of a `w`-bit code word (any value) into an all-Void table, read at one symbolic slot.
+fn insert_decode_one(w: usize) {
+    let s = sym::u8();
+    let cw = sym::u64();
+    sym::assume(cw < (1u64 << w));
+    let code = Code::<u8>::decode_only(&[(s, w, cw)]);
+    let i = sym::upto(255);
+    let in_range = (i >> (8 - w)) as u64 == cw;
+    match code.table_entry(i) {
+        Some((x, bits)) => assert!(in_range && *x == s && bits == w, "C06: insert_decode wrote a wrong or misplaced entry"),
+        None => assert!(!in_range, "C06: insert_decode left a slot of the code word void"),
+    }
+    cover!(in_range, "a slot of the code word");
+    cover!(!in_range, "a slot outside the code word");
+    sym::forget(code);
+}
+
+// @h prop=C06 tier=quick kind=proof timeout=900 unwindset="from_fn|drop_glue|drop_in_place:258;insert_decode:258" inst="Huffman::insert_decode, one insertion into an all-Void table" bounds="symbolic symbol, code length 3, any 3-bit code word; the table is read at one symbolic slot" desc="exactly the 2^(8-bits) slots whose top bits are the code word become Symbol(sym, bits), all others stay Void (this is what makes the directly written tables of the decoder kernels the states real insertions produce)"
+#[cfg_attr(kani, kani::proof, kani::unwind(3))]
+pub fn c06_insert_decode_3bit() {
+    insert_decode_one(3);
+}
+
+// @h prop=C06 tier=quick kind=proof timeout=900 unwindset="from_fn|drop_glue|drop_in_place:258;insert_decode:258" inst="Huffman::insert_decode, one insertion into an all-Void table" bounds="code length 8 (one slot), any code word" desc="as c06_insert_decode_3bit"
+#[cfg_attr(kani, kani::proof, kani::unwind(3))]
+pub fn c06_insert_decode_8bit() {
+    insert_decode_one(8);
+}
+
+// @h prop=C06 tier=thorough kind=proof timeout=3000 mem=20 unwindset="from_fn|drop_glue|drop_in_place:258;insert_decode:258" inst="Huffman::insert_decode, one insertion into an all-Void table" bounds="code lengths 1 and 5, any code word" desc="as c06_insert_decode_3bit"
+#[cfg_attr(kani, kani::proof, kani::unwind(3))]
+pub fn c06_insert_decode_1_and_5bit() {
+    insert_decode_one(1);
+    insert_decode_one(5);
+}
+
+// @h prop=C06 tier=thorough kind=proof timeout=3000 mem=26 unwindset="from_fn|drop_glue|drop_in_place|map:258;insert_decode:258" inst="Decoder::next on a code with a 9-bit symbol (root entry 0 is Further: what >= 512 equiprobable symbols produce)" bounds="state: no pending bits, no further chunk" desc="end of item: next() is None and does not panic"
 #[cfg_attr(kani, kani::proof, kani::unwind(3))]
 pub fn c06_decoder_end_further_root() {
     let code = Code::<u16>::decode_only(&[(7u16, 9, 0)]);
@@ -110,21 +148,22 @@ fn decoder_step_uniform(code: &Code<u8>, w: usize, syms: &[u8]) {
     cover!(avail > 0 && avail < 8, "a symbol decoded from a final partial byte");
 }
 
-// @h prop=C06 tier=quick kind=proof timeout=900 unwindset="from_fn|drop_glue|drop_in_place:258;insert_decode:130" inst="Decoder::next, two 1-bit codes, arbitrary mid-stream state" bounds="pending_bits <= 15, pending_byte < 2^pending_bits, at most one further chunk of 1..8 bits; symbols symbolic" desc="one step: the symbol whose code prefixes the remaining bit string, None iff no bits remain, remaining bits preserved; induction on the step covers items of any length"
+// @h prop=C06 tier=quick kind=proof timeout=900 unwindset="from_fn|drop_glue|drop_in_place:258" inst="Decoder::next, two 1-bit codes (table written down directly), arbitrary mid-stream state" bounds="pending_bits <= 15, pending_byte < 2^pending_bits, at most one further chunk of 1..8 bits; symbols symbolic" desc="one step: the symbol whose code prefixes the remaining bit string, None iff no bits remain, remaining bits preserved; induction on the step covers items of any length"
 #[cfg_attr(kani, kani::proof, kani::unwind(3))]
 pub fn c06_decoder_step_1bit() {
     let a = sym::u8();
     let b = sym::u8();
-    let code = Code::<u8>::decode_only(&[(a, 1, 0), (b, 1, 1)]);
+    let code = Code::<u8>::uniform_table(1, &[a, b]);
     decoder_step_uniform(&code, 1, &[a, b]);
     sym::forget(code);
 }
 
-// @h prop=C06 tier=thorough kind=proof timeout=3000 unwindset="from_fn|drop_glue|drop_in_place:258;insert_decode:66" inst="Decoder::next, four 2-bit codes, arbitrary mid-stream state" bounds="pending_bits <= 15, at most one further chunk of 1..8 bits" desc="as c06_decoder_step_1bit"
+// @h prop=C06 tier=quick kind=proof timeout=900 unwindset="from_fn|drop_glue|drop_in_place:258" inst="Decoder::next, four 2-bit codes (table written down directly), arbitrary mid-stream state" bounds="pending_bits <= 15, at most one further chunk of 1..8 bits" desc="as c06_decoder_step_1bit"
 #[cfg_attr(kani, kani::proof, kani::unwind(3))]
 pub fn c06_decoder_step_2bit() {
-    let code = Code::<u8>::decode_only(&[(10, 2, 0), (11, 2, 1), (12, 2, 2), (13, 2, 3)]);
-    decoder_step_uniform(&code, 2, &[10, 11, 12, 13]);
+    let syms = sym::bytes::<4>();
+    let code = Code::<u8>::uniform_table(2, &syms);
+    decoder_step_uniform(&code, 2, &syms);
     sym::forget(code);
 }
 
@@ -142,7 +181,7 @@ fn push_one_entry(max_bits: usize, n: usize) {
     sym::assume(w >= 1);
     let cw = sym::u64();
     sym::assume(cw < (1u64 << w));
-    let code = Code::<u8>::from_triples(&[(s, w, cw)]);
+    let code = Code::<u8>::encode_only(&[(s, w, cw)]);
     // pre-state: `bits` bits already stored in ceil(bits/8) bytes, unused low bits of the last byte are zero
     let pre = sym::bytes::<2>();
     let bits0 = sym::upto(16);
@@ -180,27 +219,36 @@ fn push_one_entry(max_bits: usize, n: usize) {
     sym::forget(bytes);
 }
 
-// @h prop=C06 tier=quick kind=proof timeout=900 unwindset="from_fn|drop_glue|drop_in_place:258;insert_decode:258" inst="push_symbols + Encoder, one-entry code" bounds="code length 1..4 bits, any code word, pre-state of <= 16 bits at any alignment, 2 symbols" desc="range = (old end, old end + sum of code lengths), byte length = ceil(bits/8), earlier bits unchanged, new bits are the code words"
+// @h prop=C06 tier=quick kind=proof timeout=900 unwindset="from_fn|drop_glue|drop_in_place:258" inst="push_symbols + Encoder, one-entry code" bounds="code length 1..4 bits, any code word, pre-state of <= 16 bits at any alignment, 2 symbols" desc="range = (old end, old end + sum of code lengths), byte length = ceil(bits/8), earlier bits unchanged, new bits are the code words"
 #[cfg_attr(kani, kani::proof, kani::unwind(5))]
 pub fn c06_push_one_entry_small() {
     push_one_entry(4, 2);
 }
 
-// @h prop=C06 tier=thorough kind=proof timeout=3000 unwindset="from_fn|drop_glue|drop_in_place:258;insert_decode:258" inst="push_symbols + Encoder, one-entry code" bounds="code length 1..8 bits, any code word, pre-state of <= 16 bits at any alignment, 3 symbols" desc="as c06_push_one_entry_small"
+// @h prop=C06 tier=thorough kind=proof timeout=3000 unwindset="from_fn|drop_glue|drop_in_place:258" inst="push_symbols + Encoder, one-entry code" bounds="code length 1..8 bits, any code word, pre-state of <= 16 bits at any alignment, 3 symbols" desc="as c06_push_one_entry_small"
 #[cfg_attr(kani, kani::proof, kani::unwind(6))]
 pub fn c06_push_one_entry() {
     push_one_entry(8, 3);
 }
 
-// @h prop=C06 tier=quick kind=must_panic timeout=900 unwindset="from_fn|drop_glue|drop_in_place:258;insert_decode:258" inst="push_symbols, one-entry code" bounds="one symbol in the code (1 bit), a different symbol pushed" desc="a symbol outside the statistics is refused by panicking at push"
+// @h prop=C06 tier=quick kind=must_panic timeout=900 unwindset="from_fn|drop_glue|drop_in_place:258" inst="push_symbols, one-entry code" bounds="one symbol in the code (1 bit), a different symbol pushed" desc="a symbol outside the statistics is refused by panicking at push"
 #[cfg_attr(kani, kani::proof, kani::unwind(5))]
 pub fn c06_push_unknown_symbol() {
     let s = sym::u8();
     let t = sym::u8();
     sym::assume(s != t);
-    let code = Code::<u8>::from_triples(&[(s, 1, 0)]);
+    let code = Code::<u8>::encode_only(&[(s, 1, 0)]);
     let mut bytes: Vec<u8> = Vec::new();
     let mut bits = 0usize;
     let _ = code.push(&mut bytes, &mut bits, &[t]);
     assert!(false, "MUST-PANIC: a symbol outside the code was accepted by push");
+}
+
+// @h prop=C06 tier=thorough kind=proof timeout=3000 unwindset="from_fn|drop_glue|drop_in_place:258" inst="Decoder::next, eight 3-bit codes (table written down directly), arbitrary mid-stream state" bounds="pending_bits <= 15, at most one further chunk of 1..8 bits; symbols symbolic" desc="as c06_decoder_step_1bit (code words that straddle the byte boundary of the pending register)"
+#[cfg_attr(kani, kani::proof, kani::unwind(3))]
+pub fn c06_decoder_step_3bit() {
+    let syms = sym::bytes::<8>();
+    let code = Code::<u8>::uniform_table(3, &syms);
+    decoder_step_uniform(&code, 3, &syms);
+    sym::forget(code);
 }
